@@ -488,10 +488,11 @@ def c19(ctx):
             "Pair::with_ranker result is not a valid pair (or the finder reports a different pair)" if tup[2] == "ranker" else "Pair::with_indices acceptance set is wrong",
             {k: (v if k not in ("rank", "n") else "<%d bytes>" % len(v)) for k, v in recd.items()}), {"record": recd})
     ctx.evaluations += n_ + sum_exec(ctx, ["pair_exec", "pp_real_exec", "pp_scaled_exec"])
+    extra = tlaps_supplement(ctx, "PairUnbounded", ("LimFacts", "InitInv", "NextInv", "Safety"))
     return C.finish(ctx, "model_checking",
                     "MC_Pair: all needles over a 3-letter alphabet x all 27 rankers (constant, non-injective, adversarial) with the scan transcribed step by step and the "
                     "cap scaled; invariants None <=> |n| < 2, offsets distinct, in range, below the cap, with_indices accepts exactly distinct in-range pairs; every "
-                    "behaviour replayed on Pair::with_ranker / with_indices")
+                    "behaviour replayed on Pair::with_ranker / with_indices", extra_cov=extra)
 
 
 OBJ_INV = ["FindPure", "IterGreedy", "CloneGreedy", "EmitReplay"]
